@@ -35,10 +35,34 @@ def _mode_kw(c, pair=False, triple=False):
     return {key: val}
 
 
-def _obs_rp(cls, ts, kw, network):
+SETTER = {"threshold": "set_fixed_threshold", "recurrence_rate": "set_fixed_recurrence_rate",
+          "local_recurrence_rate": "set_fixed_local_recurrence_rate",
+          "adaptive_neighborhood_size": "set_adaptive_neighborhood_size",
+          "threshold_std": "set_fixed_threshold_std"}
+
+
+def _via_setter(case):
+    """Every second case reaches its setting through the SETTER on an object that was constructed with
+    another setting (everything recurrent) - the matrix must be the one of the final setting."""
+    import zlib
+    return zlib.crc32(case.encode()) % 2 == 1
+
+
+def _split_mode(kw):
+    mode = [k for k in kw if k in SETTER][0]
+    rest = {k: v for k, v in kw.items() if k != mode}
+    return mode, kw[mode], rest
+
+
+def _obs_rp(cls, ts, kw, network, via=False):
     o = {"exc": "", "R": [], "N": 0, "rr": 0, "lines": {"exc": "", "diag": [], "vert": [], "white": []}}
     try:
-        rp = cls(ts, silence_level=3, **kw)
+        if via:
+            mode, val, rest = _split_mode(kw)
+            rp = cls(ts, silence_level=3, threshold=1.0e6, **rest)
+            getattr(rp, SETTER[mode])(val)
+        else:
+            rp = cls(ts, silence_level=3, **kw)
     except Exception as ex:
         o["exc"] = "init:" + type(ex).__name__
         return o
@@ -72,8 +96,9 @@ def _rp(c):
         ts = enc.represent(c["pts"], c["case"])[0]
         kw = dict(metric=c["metric"])
     kw.update(_mode_kw(c))
-    return {"rp": _obs_rp(RecurrencePlot, ts.copy(), kw, False),
-            "rn": _obs_rp(RecurrenceNetwork, ts.copy(), kw, True)}
+    via = _via_setter(c["case"])
+    return {"via": int(via), "rp": _obs_rp(RecurrencePlot, ts.copy(), kw, False, via),
+            "rn": _obs_rp(RecurrenceNetwork, ts.copy(), kw, True, via)}
 
 
 def _x(c):
@@ -88,7 +113,12 @@ def _x(c):
         kwc.update(_mode_kw(c))
         if c["emb"]:
             kwc.update(dim=2, tau=1)
-        crp = CrossRecurrencePlot(x, y, silence_level=3, **kwc)
+        if _via_setter(c["case"]):
+            mode, val, rest = _split_mode(kwc)
+            crp = CrossRecurrencePlot(x, y, silence_level=3, threshold=1.0e6, **rest)
+            getattr(crp, SETTER[mode])(val)
+        else:
+            crp = CrossRecurrencePlot(x, y, silence_level=3, **kwc)
         o["crp"]["CR"] = enc.ints(crp.recurrence_matrix())
         o["crp"]["N"] = int(crp.N)
         o["crp"]["M"] = int(crp.M)
@@ -104,7 +134,12 @@ def _x(c):
         kwi.update(_mode_kw(c, triple=True))
         if c["emb"]:
             kwi.update(dim=2, tau=(1, 1))
-        isrn = InterSystemRecurrenceNetwork(x, y, silence_level=3, **kwi)
+        if _via_setter(c["case"]):
+            mode, val, rest = _split_mode(kwi)
+            isrn = InterSystemRecurrenceNetwork(x, y, silence_level=3, threshold=(1.0e6, 1.0e6, 1.0e6), **rest)
+            getattr(isrn, SETTER[mode])(val)
+        else:
+            isrn = InterSystemRecurrenceNetwork(x, y, silence_level=3, **kwi)
         o["isrn"]["adj"] = enc.ints(isrn.adjacency)
         o["isrn"]["N"] = int(isrn.N)
         o["isrn"]["Nx"] = int(isrn.N_x)
@@ -128,7 +163,12 @@ def _j(c):
         o = {"exc": "", "JR": [], "N": 0, "rr": 0, "adj": [],
              "lines": {"exc": "", "diag": [], "vert": [], "white": []}}
         try:
-            obj = cls(x, y, silence_level=3, **kw)
+            if _via_setter(c["case"]):
+                rest = {k: v for k, v in kw.items() if k != key}
+                obj = cls(x, y, silence_level=3, threshold=(1.0e6, 1.0e6), **rest)
+                getattr(obj, SETTER[key])(kw[key])
+            else:
+                obj = cls(x, y, silence_level=3, **kw)
             o["JR"] = enc.ints(obj.recurrence_matrix())
             o["N"] = int(obj.N)
             if name == "jrn":
